@@ -4,6 +4,7 @@ import Driver.SValJson
 import Driver.ArrJson
 import SaModel.Build.Finish
 import SaModel.Build.Dec
+import SaModel.Build.Obs
 import SaModel.Spec.Interp
 import SaModel.Spec.WF
 import SaModel.Spec.Blame
@@ -25,6 +26,9 @@ suite `build`: `to_marrow(fields, rows)`.
               formed fails it (and C16: a failure that was not reported as an error)
           C16 no panic
           C18 an error is annotated with the field the model blames
+  also  : the observable rows `Build.decH` of the model's final state (hidden-rows refinement, Props/C01Obs.lean): every
+          row of every root column is determined and equals the row `dec` reads; tag `hidden-undetermined` when a slot
+          below a null ancestor is undetermined (placeholder key of an empty non-nullable-key dictionary)
 -/
 namespace Driver.Suites.Build
 open Lean Driver SaModel SaModel.Build SaModel.Spec
@@ -229,8 +233,20 @@ def handle (j : Json) : Except String Verdict := do
     let phys := iarrs == marrs
     -- the abstraction function of the refinement proofs, evaluated on the model's final state:
     -- `decodeAll (finish b) = (dec b).map ok` (runtime instance of the theorem, before/while it is proved)
-    let decOk := match runRows ext fields rows with
+    let mroot := runRows ext fields rows
+    let decOk := match mroot with
       | .ok root => (decRoot root).map (fun c => c.map (fun v => (Except.ok v : R LVal))) == mdecoded
+      | .error _ => false
+    -- the OBSERVABLE rows (`Build.decH`, the abstraction of the hidden-rows refinement `Props.C01.push_refines` /
+    -- `C01_build_decode'`): every row of every root column is determined and is the row `dec` reads (runtime instance of
+    -- `runRows_rows'` + `det_root_cols`); `undet`: some slot hidden below a null ancestor IS undetermined in the final
+    -- state (a placeholder key of a still empty dictionary) — the situation `Safe` used to exclude
+    let detOk := match mroot with
+      | .ok (.struct _ _ _ fs _ _ _) =>
+        (decHCols fs).map (·.2) == (decCols fs).map (fun c => c.2.map some)
+      | _ => false
+    let undet := match mroot with
+      | .ok root => anyUndet root
       | .error _ => false
     -- no exemption for malformed call streams: whatever is accepted must be well formed (`C03_wf` has no `rawOK`)
     let c03 := if wfAll then "pass" else "fail"
@@ -246,9 +262,11 @@ def handle (j : Json) : Except String Verdict := do
       else if c01 == "fail" then s!"build/C01/{cul}"
       else if c05 == "fail" then s!"build/C05/accepted-unrepresentable"
       else if !same then "build/decoded-differs"
-      else if !decOk && !fields.any hasFsb0 then "build/dec-vs-decode" else ""
-    return { agree := same && (decOk || fields.any hasFsb0), spec := [("C16", c16), ("C05", c05), ("C01", c01), ("C03", c03), ("C18", "na")],
-             tags := (if phys then "phys-eq" else "phys-diff") :: (if decOk then "dec=decode" else "dec≠decode") :: tags, sig := sig,
+      else if !decOk && !fields.any hasFsb0 then "build/dec-vs-decode"
+      else if !detOk then "build/root-row-undetermined" else ""
+    return { agree := same && (decOk || fields.any hasFsb0) && detOk, spec := [("C16", c16), ("C05", c05), ("C01", c01), ("C03", c03), ("C18", "na")],
+             tags := (if phys then "phys-eq" else "phys-diff") :: (if decOk then "dec=decode" else "dec≠decode") ::
+               (if undet then "hidden-undetermined" :: tags else tags), sig := sig,
              why := if sig == "" then "" else s!"{sig}: first row not representable = {repr firstBad}; column not wf = {repr firstNotWf}" }
 
 end Driver.Suites.Build
